@@ -85,8 +85,20 @@ class _CountHandler(logging.Handler):
         super().__init__(level=logging.DEBUG)
         self.records = []
 
+    def createLock(self):
+        # no real lock around emit: under the cooperative controller a real lock held across a controlled
+        # yield would block the whole harness; the list append below is atomic anyway
+        self.lock = None
+
     def emit(self, record):
         self.records.append(record)
+        # like every real handler (the default last-resort handler included): render the message, which evaluates
+        # the `%r` of the job - and, through its arguments, whatever they reference; errors are swallowed as
+        # logging.Handler.handleError would do
+        try:
+            record.getMessage()
+        except Exception:  # noqa: BLE001
+            pass
 
 
 class ThrRunner:
